@@ -1553,3 +1553,232 @@ def may_reach(F, d, u):
     if k == "LetStmt":
         return ra == "init" and rb == "else"
     return a["id"] < b["id"] if "id" in a and "id" in b else False
+
+
+# ----------------------------------------------------------------------------
+# taint (PU): does an expression's value derive from a declared untrusted source
+# ----------------------------------------------------------------------------
+
+
+class Taint:
+    def __init__(self, F, source_calls=(), source_fields=(), source_types=(), max_depth=25):
+        self.F = F
+        self.source_calls = tuple(source_calls)
+        self.source_fields = set(source_fields)  # (adt-or-variant path, field)
+        self.source_types = tuple(source_types)  # type-string prefixes whose method results are tainted
+        self.max_depth = max_depth
+        self._callers = None
+        self.memo = {}
+
+    def callers(self):
+        if self._callers is None:
+            idx = {}
+            for n in self.F.all_nodes():
+                if n["k"] in ("Call", "MethodCall"):
+                    for c in (n.get("fn"), n.get("impl")):
+                        if c:
+                            idx.setdefault(c, []).append(n)
+            self._callers = idx
+        return self._callers
+
+    def why(self, e, depth=0, seen=None):
+        """None if untainted, else a short provenance string."""
+        if seen is None:
+            seen = set()
+        if depth > self.max_depth:
+            return None
+        e = peel(e)
+        k = e.get("k")
+        if "id" in e:
+            if e["id"] in seen:
+                return None
+            seen.add(e["id"])
+        d = depth + 1
+        if k in ("Call", "MethodCall"):
+            if callee_matches(e, self.source_calls):
+                return "result of %s" % e.get("fn")
+            if k == "MethodCall":
+                rt = self.F.tystr(e.get("recv_ty")) or ""
+                if any(rt.startswith(p) for p in self.source_types):
+                    return "method `%s` on untrusted %s" % (e["name"], rt[:50])
+            for a in call_args(e):
+                w = self.why(a, d, seen)
+                if w:
+                    return w
+            if "f" in e:
+                return self.why(e["f"], d, seen)
+            return None
+        if k == "Field":
+            if (e.get("adt"), e["field"]) in self.source_fields:
+                return "field %s.%s" % (e.get("adt"), e["field"])
+            return self._field_of(e["e"], e["field"], d, seen)
+        if k == "Path" and e.get("res") == "local":
+            return self._local(e, d, seen)
+        if k in ("Lit",):
+            return None
+        if k == "Closure":
+            return self.why(e["body"]["value"], d, seen)
+        if k == "Block":
+            return self.why(e["expr"], d, seen) if "expr" in e else None
+        if k == "Match":
+            w = self.why(e["scrut"], d, seen)
+            if w:
+                return w
+            for a in e["arms"]:
+                w = self.why(a["body"], d, seen)
+                if w:
+                    return w
+            return None
+        if k == "If":
+            for key in ("then", "else"):
+                if key in e:
+                    w = self.why(e[key], d, seen)
+                    if w:
+                        return w
+            return None
+        for c in children(e):
+            if c.get("k") == "Pat":
+                continue
+            w = self.why(c, d, seen)
+            if w:
+                return w
+        return None
+
+    def _field_of(self, base, field, d, seen):
+        """taint of `base.field`, field-sensitive where base resolves to a
+        struct literal (directly, through a local, or through a parameter)."""
+        if d > self.max_depth:
+            return None
+        base = peel_value(base)
+        k = base.get("k")
+        if k == "Struct":
+            for f in base["fields"]:
+                if f["name"] == field:
+                    return self.why(f["e"], d + 1, seen)
+            if "base" in base:
+                return self._field_of(base["base"], field, d + 1, seen)
+            return None
+        if k == "Path" and base.get("res") == "local":
+            key = ("fld", base["_top"]["path"], base["lid"], field)
+            if key in seen:
+                return None
+            seen.add(key)
+            b = base["_top"]
+            for df in local_defs(b, base["lid"]):
+                kind = df[0]
+                if kind in ("let", "assign") and df[1] is not None:
+                    w = self._field_of(df[1], field, d + 1, seen)
+                    if w:
+                        return w
+                elif kind == "param":
+                    top_pat, bind, idx, owner = df[2], df[3], df[4], df[5]
+                    if bind.get("name") == "self":
+                        continue
+                    parent = owner.get("_p")
+                    if parent is not None and parent.get("k") == "Closure":
+                        w = self.why(base, d + 1, seen)
+                        if w:
+                            return w
+                        continue
+                    names = [b["path"]] + ([b["trait_method"]] if b.get("trait_method") else [])
+                    for nm in names:
+                        for c in self.callers().get(nm, []):
+                            args = call_args(c)
+                            if idx < len(args):
+                                w = self._field_of(args[idx], field, d + 1, seen)
+                                if w:
+                                    return w
+                else:
+                    w = self.why(base, d + 1, seen)
+                    if w:
+                        return w
+            return None
+        return self.why(base, d, seen)
+
+    def _pat_field_source(self, top_pat, bind):
+        n = bind
+        while n is not top_pat:
+            p = n["_p"]
+            if "k" not in p and "name" in p and "pat" in p:
+                sp = p["_p"]
+                if (sp.get("path"), p["name"]) in self.source_fields:
+                    return "field %s.%s" % (sp.get("path"), p["name"])
+                n = sp
+                continue
+            n = p
+        return None
+
+    def _local(self, e, d, seen):
+        b = e["_top"]
+        for df in local_defs(b, e["lid"]):
+            kind = df[0]
+            if kind in ("let", "assign"):
+                w = self.why(df[1], d, seen)
+                if w:
+                    return w
+            elif kind in ("letpat", "arm", "for"):
+                w = self._pat_field_source(df[2], df[3])
+                if w:
+                    return w
+                if df[1] is not None:
+                    w = self.why(df[1], d, seen)
+                    if w:
+                        return w
+            elif kind == "param":
+                top_pat, bind, idx, owner = df[2], df[3], df[4], df[5]
+                w = self._pat_field_source(top_pat, bind)
+                if w:
+                    return w
+                parent = owner.get("_p")
+                if parent is not None and parent.get("k") == "Closure":
+                    cp = parent.get("_p")
+                    if cp is not None and cp.get("k") == "MethodCall":
+                        w = self.why(cp["recv"], d, seen)
+                        if w:
+                            return w
+                    continue
+                if bind.get("name") == "self":
+                    continue  # receivers are not followed across calls
+                names = [b["path"]] + ([b["trait_method"]] if b.get("trait_method") else [])
+                for nm in names:
+                    for c in self.callers().get(nm, []):
+                        args = call_args(c)
+                        if idx < len(args):
+                            w = self.why(args[idx], d, seen)
+                            if w:
+                                return w
+        return None
+
+
+PANIC_MACROS = ("unreachable", "panic", "assert", "assert_eq", "assert_ne", "todo", "unimplemented")
+UNWRAP_FNS = {
+    "std::option::Option::unwrap", "std::option::Option::expect",
+    "std::result::Result::unwrap", "std::result::Result::expect", "std::result::Result::unwrap_err",
+}
+
+
+def panic_sinks(b):
+    """(kind, node, operand) for every potential panic site in body b."""
+    out = []
+    seen_macro = set()
+    for n in b["_nodes"]:
+        k = n["k"]
+        if k == "MethodCall" and n.get("fn") in UNWRAP_FNS and not (n.get("mac") and any(m in ("format", "write", "writeln", "print", "println") for m in n["mac"])):
+            out.append(("unwrap", n, n["recv"]))
+        elif k == "Index":
+            out.append(("index", n, n))
+        elif k == "MethodCall" and n.get("fn") in ("std::vec::Vec::remove", "std::vec::Vec::swap_remove", "std::collections::VecDeque::remove"):
+            out.append(("remove", n, n))
+        m = n.get("mac")
+        if m and any(x in PANIC_MACROS for x in m) and not any(x.startswith("debug_assert") for x in m):
+            # outermost node of this macro expansion
+            p = n.get("_p")
+            if p is not None and p.get("mac") == m:
+                continue
+            key = (n["ln"], tuple(m))
+            if key in seen_macro:
+                continue
+            seen_macro.add(key)
+            name = [x for x in m if x in PANIC_MACROS][0]
+            out.append((name + "!", n, n))
+    return out
